@@ -62,12 +62,12 @@ def ctfe_stage(rep):
 
 
 def miri_engine(i, deep):
-    env = dict(os.environ, CARGO_NET_OFFLINE="true", CARGO_TARGET_DIR=os.path.join(ROOT, "target", "miri"), MIRIFLAGS="-Zmiri-disable-isolation -Zmiri-ignore-leaks",
-               VERIF_C01_ENGINES=str(i), VERIF_MIRI_DEEP="1" if deep else "0", VERIF_THREADS="1")
+    env = dict(os.environ, CARGO_NET_OFFLINE="true", CARGO_TARGET_DIR=os.path.join(ROOT, "target", "miri"), MIRIFLAGS="-Zmiri-disable-isolation -Zmiri-ignore-leaks")
+    sel = ["--engines", str(i)] + (["--deep"] if deep else [])
     out = os.path.join(ROOT, "evidence", f".C01.miri.{i}.json")
     t = time.time()
     try:
-        p = subprocess.run(["cargo", "+nightly", "miri", "run", "--offline", "-q", "-p", "rt", "--", "C01", "--tier", "miri", "--out", out], cwd=os.path.join(ROOT, "harness"), env=env,
+        p = subprocess.run(["cargo", "+nightly", "miri", "run", "--offline", "-q", "-p", "rt", "--", "C01", "--tier", "miri", "--out", out] + sel, cwd=os.path.join(ROOT, "harness"), env=env,
                            stdout=subprocess.PIPE, stderr=subprocess.PIPE, text=True, timeout=3 * 3600 if deep else 900)
     except subprocess.TimeoutExpired:
         return i, None, "timeout", "", time.time() - t
@@ -91,8 +91,8 @@ def run(tier, seed, drv):
     rt = drv["run_rt"]("C01", tier, 3 * 3600)
     # ---- (3) Miri: first make sure the interpreter build exists (one build, then parallel runs)
     deep = tier == "thorough"
-    env = dict(os.environ, CARGO_NET_OFFLINE="true", CARGO_TARGET_DIR=os.path.join(ROOT, "target", "miri"), MIRIFLAGS="-Zmiri-disable-isolation -Zmiri-ignore-leaks", VERIF_C01_ENGINES="999")
-    b = subprocess.run(["cargo", "+nightly", "miri", "run", "--offline", "-q", "-p", "rt", "--", "C01", "--tier", "miri", "--out", "/dev/null"], cwd=os.path.join(ROOT, "harness"), env=env, stdout=subprocess.PIPE, stderr=subprocess.PIPE, text=True)
+    env = dict(os.environ, CARGO_NET_OFFLINE="true", CARGO_TARGET_DIR=os.path.join(ROOT, "target", "miri"), MIRIFLAGS="-Zmiri-disable-isolation -Zmiri-ignore-leaks")
+    b = subprocess.run(["cargo", "+nightly", "miri", "run", "--offline", "-q", "-p", "rt", "--", "C01", "--tier", "miri", "--out", "/dev/null", "--engines", "999"], cwd=os.path.join(ROOT, "harness"), env=env, stdout=subprocess.PIPE, stderr=subprocess.PIPE, text=True)
     if b.returncode != 0:
         rep["machinery_errors"].append("cargo miri could not build/run the harness: " + b.stderr[-1500:])
         return rep
@@ -112,8 +112,8 @@ def run(tier, seed, drv):
                 only_sb = "Stacked Borrows" in msg or "tag" in msg and "retag" in msg
                 confirmed = True
                 if only_sb:
-                    env2 = dict(os.environ, CARGO_NET_OFFLINE="true", CARGO_TARGET_DIR=os.path.join(ROOT, "target", "miri"), MIRIFLAGS="-Zmiri-disable-isolation -Zmiri-ignore-leaks -Zmiri-tree-borrows", VERIF_C01_ENGINES=str(i))
-                    p2 = subprocess.run(["cargo", "+nightly", "miri", "run", "--offline", "-q", "-p", "rt", "--", "C01", "--tier", "miri", "--out", "/dev/null"], cwd=os.path.join(ROOT, "harness"), env=env2, stdout=subprocess.PIPE, stderr=subprocess.PIPE, text=True)
+                    env2 = dict(os.environ, CARGO_NET_OFFLINE="true", CARGO_TARGET_DIR=os.path.join(ROOT, "target", "miri"), MIRIFLAGS="-Zmiri-disable-isolation -Zmiri-ignore-leaks -Zmiri-tree-borrows")
+                    p2 = subprocess.run(["cargo", "+nightly", "miri", "run", "--offline", "-q", "-p", "rt", "--", "C01", "--tier", "miri", "--out", "/dev/null", "--engines", str(i)] + (["--deep"] if deep else []), cwd=os.path.join(ROOT, "harness"), env=env2, stdout=subprocess.PIPE, stderr=subprocess.PIPE, text=True)
                     confirmed = "Undefined Behavior" in p2.stderr
                     if not confirmed:
                         rep["notes"].append(f"{name}: a Stacked-Borrows-only report was not confirmed under Tree Borrows and is not counted")
@@ -123,6 +123,9 @@ def run(tier, seed, drv):
             if rc != 0 or r is None:
                 rep["machinery_errors"].append(f"Miri engine {name} failed (rc={rc}) without a UB report: {err[-600:]}")
                 continue
+            if not r.get("transitions"):
+                rep["machinery_errors"].append(f"Miri engine #{i} ({name}) executed nothing (vacuous run)")
+                continue
             miri_states += r.get("states", 0)
             miri_trans += r.get("transitions", 0)
             for v in r.get("violations", []):
@@ -131,6 +134,32 @@ def run(tier, seed, drv):
                 v["case"] = "[under Miri] " + v["case"]
                 rep["violations"].append(v)
             rep["machinery_errors"] += r.get("machinery_errors", [])
+    # ---- (3b) thorough: the generated destructure! / array-macro program families under Miri as well
+    gen_miri = {}
+    if deep:
+        import gen_c15, gen_c11
+        for mod, pid, prefix, shards in ((gen_c15, "C15", "c15", 6), (gen_c11, "C11", "c11", 8)):
+            r0 = mod.run("quick", seed, drv)   # (re)generates and builds the workspace natively, excluding rejected programs
+            if r0.get("machinery_errors"):
+                rep["machinery_errors"] += r0["machinery_errors"]
+                continue
+            ws = os.path.join(e3.GEN, pid)
+            menv = dict(os.environ, CARGO_NET_OFFLINE="true", CARGO_TARGET_DIR=os.path.join(ROOT, "target", "miri-gen"), MIRIFLAGS="-Zmiri-disable-isolation -Zmiri-ignore-leaks", RUSTFLAGS="-Awarnings")
+            def one(si):
+                t = time.time()
+                p = subprocess.run(["cargo", "+nightly", "miri", "run", "--offline", "-q", "-p", f"{prefix}_{si}"], cwd=ws, env=menv, stdout=subprocess.PIPE, stderr=subprocess.PIPE, text=True)
+                return si, p.returncode, p.stdout, p.stderr, time.time() - t
+            with concurrent.futures.ThreadPoolExecutor(8) as ex:
+                for si, rc, out, err, secs in ex.map(one, range(shards)):
+                    n = sum(1 for l in out.splitlines() if l.startswith("{"))
+                    gen_miri[f"{prefix}_{si}"] = {"programs": n, "seconds": round(secs, 1), "exit": rc}
+                    miri_trans += n
+                    if "Undefined Behavior" in err:
+                        msg = err[err.index("Undefined Behavior") - 7:][:2500]
+                        rep["violations"].append({"engine": "miri", "func": f"generated {pid} programs", "replay": f"miri-gen|{prefix}_{si}", "case": f"Miri while running the generated {pid} program family (shard {si})",
+                                                  "expected": "no undefined behaviour", "observed": msg, "class": "miri-ub"})
+                    elif rc != 0:
+                        rep["machinery_errors"].append(f"Miri on generated crate {prefix}_{si} failed (rc={rc}): {err[-500:]}")
     # ---- merge
     for v in rt.get("violations", []):
         v = dict(v)
@@ -155,7 +184,7 @@ def run(tier, seed, drv):
     rep["samples"] = ["ctfe: driver_slices / driver_strings / driver_chr / driver_slice_iters / driver_arrays / driver_destructure / driver_cstr / driver_parser"] + rt.get("samples", [])[:2] + [f"Miri: {k} ({v['seconds']}s)" for k, v in list(per_engine.items())[:4]]
     rep["notes"] += rt.get("notes", [])
     rep["extra"] = {"ctfe_drivers": drivers, "miri_engines": per_engine, "miri_states": miri_states, "miri_transitions": miri_trans, "native_states": rt.get("states", 0), "native_transitions": rt.get("transitions", 0),
-                    "unsafe_sites": sum(sites.values()), "unsafe_files": len(sites), "unmapped_unsafe_sites": unmapped, "total_s": round(time.time() - t0, 1)}
+                    "unsafe_sites": sum(sites.values()), "unsafe_files": len(sites), "unmapped_unsafe_sites": unmapped, "miri_generated_families": gen_miri, "total_s": round(time.time() - t0, 1)}
     rep["assumptions"] = ["Miri (nightly) models UB of the abstract machine for the executions the drivers produce; rustc's const evaluator likewise", "bounded: reduced bounds under the interpreter",
                           "rustc 1.95 / std as reference", "the harness itself contains no unsafe beyond ZST-free address arithmetic on usize, so memory errors can only originate in konst"]
     return rep
